@@ -1470,6 +1470,8 @@ def install_extras(m):
     g[Sym("call-with-exception-handler")] = [Prim("call-with-exception-handler", None, 2, 2, special=cweh)]
     for name in ("#%verif-full-gc", "#%gc-collect"):
         g[Sym(name)] = [Prim(name, lambda: VOID, 0, 0)]
+    # hands a closure to the host side (the engine then sees an opaque host function rooted by the host): same procedure
+    g[Sym("#%closure->boxed-function")] = [Prim("#%closure->boxed-function", lambda f: f, 1, 1)]
 
 
 # ---------------------------------------------------------------------------------------------- source emitter
